@@ -16,21 +16,21 @@ CHECKS = {
         technique="Kani loop-free harnesses (full-domain symbolic store + u128 amounts) on the extracted increase/decrease_balance, fee, pay_fee, add_fee_to_block_fees, App::end_block, Transfer/BridgeLock/BridgeUnlock/Ics20Withdrawal execute",
         text="Each ledger-moving function is verified for all amounts and all initial states of the keys it touches: exact debit/credit in mathematical integers (no wrap, no saturation), "
              "conservation per call including the alias case, write frame (no other key changes), fee == base + multiplier*size exactly, fee debited from the signer only and credited to the block-fee map by the same amount, and end_block credits every asset's block total to the fee recipient exactly (map of <= 2 assets, bounded).",
-        note=KANI_TB + " BridgeTransfer is under C04, ICS-20 receive/refund under C18. Not under contract: per-action FeeHandler impls, the lifting from per-call to per-block conservation (argued in DESIGN, not mechanised).",
+        note=KANI_TB + " BridgeTransfer is under C04, ICS-20 receive/refund under C18. Not under contract: per-action FeeHandler impls, the lifting from per-call to per-history conservation is a Verus lemma (c01_ledger) over a hand transcription of these postconditions in per-asset aggregates (trusted transcription).",
     ),
     "C02": dict(
         category="proof",
-        technique="Kani loop-free harnesses on run_mutable_checks+execute of Transfer, BridgeLock, BridgeUnlock, BridgeTransfer, Ics20Withdrawal, InitBridgeAccount, SudoAddressChange, IbcSudoChange, IbcRelayerChange, BridgeSudoChange, FeeChange (all 18 kinds), FeeAssetChange, ValidatorUpdate against a symbolic store",
+        technique="Kani loop-free harnesses on run_mutable_checks+execute of Transfer, BridgeLock, BridgeUnlock, BridgeTransfer, Ics20Withdrawal, InitBridgeAccount, SudoAddressChange, IbcSudoChange, IbcRelayerChange, BridgeSudoChange, FeeChange (all 18 kinds), FeeAssetChange, ValidatorUpdate against a symbolic store; Kani harness on the extracted astria-core `impl Protobuf for Transaction` with the signature check as a logged opaque predicate",
         text="For each action under contract: execute == Ok implies the signer equals the authority read from the pre-state of that very call (signer itself and not a bridge account; current withdrawer; current sudo / ibc sudo / bridge sudo), "
-             "and only the action's own key family is written (frame assertion over all other keys).",
-        note=KANI_TB + " Not under contract: CurrencyPairsChange, MarketsChange, IbcRelay, RecoverIbcClient, transaction signature verification (ed25519).",
+             "and only the action's own key family is written (frame assertion over all other keys). A Transaction value exists only after exactly one successful signature check with the message's own key and signature over exactly the bytes its body is decoded from.",
+        note=KANI_TB + " Not under contract: CurrencyPairsChange, MarketsChange, IbcRelay, RecoverIbcClient; ed25519 itself is an opaque predicate.",
     ),
     "C03": dict(
         category="proof",
         technique="Kani harnesses on the extracted CheckedTransaction::execute (nonce prefix loop-free, action loop unrolled to 3) and App::execute_transaction with a logging StateDelta stand-in",
         text="A transaction takes effect only if its nonce equals the signer's stored nonce, which is then raised by exactly one (u32::MAX refused); a wrong nonce is refused before any write or action; actions run in order with their own index and stop at the first failure; "
              "execute_transaction runs in its own delta which is applied exactly when execution returned Ok and dropped otherwise.",
-        note=KANI_TB + " The action loop is bounded to 3 actions (labelled bounded). At-most-once over the whole history follows from nonce equality + increment by induction (DESIGN §6 C03), not mechanised.",
+        note=KANI_TB + " The action loop is bounded to 3 actions (labelled bounded). At-most-once over any history of attempts follows from nonce equality + increment by induction: Verus lemma c03_history over a transcription of the step contract (the transcription is trusted).",
     ),
     "C04": dict(
         category="proof",
@@ -124,8 +124,8 @@ CHECKS = {
     ),
     "C17": dict(
         category="other",
-        technique="Kani in place on astria-merkle with astria-core's `impl Protobuf for merkle::Proof` cut into the same crate: decode of an arbitrary wire proof",
-        text="Decides one component: decoding any wire Merkle proof (any leaf_index/tree_size u64, path up to 40 bytes) never panics and an accepted proof re-encodes to the message it came from; verification of every decoded proof is total (C08 units). "
+        technique="Kani in place on astria-merkle with astria-core's `impl Protobuf for merkle::Proof` cut into the same crate: decode of an arbitrary wire proof; Kani harness on the extracted `impl Protobuf for Transaction`",
+        text="Decides one component: decoding any wire Merkle proof (any leaf_index/tree_size u64, path up to 40 bytes) never panics and an accepted proof re-encodes to the message it came from; verification of every decoded proof is total (C08 units); decoding a wire transaction either fails or yields a value that was signature-checked over its own body bytes and re-encodes to the same message. "
              "The block-, metadata- and transaction-level decoders are not under contract.",
         note="level other. Trusted: Kani/CBMC, stand-ins for Protobuf/raw::Proof/Bytes. NOT covered: prost/serde_json/brotli byte decoders; try_from_raw of SequencerBlock, FilteredSequencerBlock, SubmittedMetadata, SubmittedRollupData, Transaction; panics in tokio tasks.",
     ),
